@@ -23,7 +23,10 @@ def run(prop, with_tests=False):
     muts = json.load(open(os.path.join(HERE, "selftest", "mutants_%s.json" % prop.lower())))
     repo = os.environ.get("VERIF_REPO", "/repo")
     ok = True
+    only = os.environ.get("MUTANTS")          # optional: comma-separated id prefixes
     for m in muts:
+        if only and not any(m["id"].startswith(x) for x in only.split(",")):
+            continue
         d = tempfile.mkdtemp(prefix="verif_mut_")
         try:
             dst = os.path.join(d, "repo")
